@@ -133,12 +133,22 @@ func judgeHistories(c *GenCtx) []Diff {
 			objs = append(objs, fmt.Sprintf(`{"k":%d,"i":%d}`, r.Intn(3), i))
 			s = append(s, c.jstr(r.Pick(strPool)))
 		}
-		return `{"a":[` + strings.Join(a, ",") + `],"objs":[` + strings.Join(objs, ",") + `],"s":[` + strings.Join(s, ",") + `],"o":{"p":1,"q":[1,2]},"o2":{"q":5,"r":null}}`
+		var u []string
+		for i := r.Intn(5); i >= 0; i-- {
+			u = append(u, fmt.Sprint(r.Intn(20)))
+		}
+		return `{"a":[` + strings.Join(a, ",") + `],"u":[` + strings.Join(u, ",") + `],"objs":[` + strings.Join(objs, ",") + `],"s":[` + strings.Join(s, ",") + `],"o":{"p":1,"q":[1,2]},"o2":{"q":5,"r":null}}`
 	}
+	aliasOperands := []string{"u", "u[*]", "u[]", "u[:]", "@.u", "(u)", "u || a", "[u][0]", "{k: u}.k", "not_null(u)", "let $v = u in $v", "`[3,1,2]`", "`[3,1,2]`[*]", "s", "s[*]",
+		"a", "a[*]", "to_array(u)", "map(&@, u)", "o", "o.q", "o.q[*]", "values(o)", "objs", "objs[*]"}
+	aliasFns := []string{"sort(%s)", "reverse(%s)", "sort_by(%s, &@)", "%s[*]", "%s[]", "%s[::-1]", "map(&@, %s)", "to_array(%s)", "merge(%s, {z: `1`})", "values(%s)", "items(%s)",
+		"sort(%s[*])", "reverse(%s[*])", "sort(%s[])", "sort(sort(%s))", "%s | sort(@)", "[sort(%s), %s]", "[%s, reverse(%s)]", "sort_by(%s, &k)", "max_by(%s, &k)", "group_by(%s, &to_string(@))"}
 	for h := 0; h < nh; h++ {
 		expr := r.Pick(histExprs)
 		if r.Chance(25) {
 			expr = c.expr(2)
+		} else if r.Chance(40) {
+			expr = strings.ReplaceAll(r.Pick(aliasFns), "%s", r.Pick(aliasOperands))
 		}
 		// MustCompile panics exactly when Compile fails
 		_, cerr := jmespath.Compile(expr)
